@@ -337,3 +337,54 @@ Theorem sub_native_same_length_exact :
   (dt_rsub self o = Ok i -> d_N (i_dur i) = ep_inst o - ep_inst self).
 Proof. exact sub_native_exact_proved. Qed.
 Print Assumptions sub_native_same_length_exact.
+
+(* ---- the MODEL side itself: Model/IntervalLen.v EQUALS the machine translation of pendulum's own code (Gen/IntervalGlue.v: interval.py
+   Interval.__new__, datetime.py DateTime.diff / __sub__ / __rsub__, date.py Date.diff / __sub__, __init__.py naive — translated from /repo on
+   every run, tools/vlib/gens/g17_interval_glue.py).  An endpoint is an object WITH ITS CLASS TAG (Model/IntervalObj.v gobj: native date /
+   native datetime / pendulum Date / pendulum DateTime); ep_of maps it to the endpoint record of the model; obj_ok = well-formed object.
+   Stated for the DELTA of the Interval (the `_end - _start` of __new__): the tail Duration.__new__(cls, seconds=delta.total_seconds()) is
+   Spec/TdFloat.v + Model/Duration.v (C09 model_is_code_duration_new); Interval.__init__ is not translated. ---- *)
+From PV Require Import Model.TzGlueObj Gen.TzGlue Model.IntervalObj Gen.IntervalGlue Proofs.IntervalGlueNew Proofs.IntervalGlueFacts.
+
+(* Interval.__new__: type check, naive/aware check, the `absolute and start > end` swap, native rebuilds WITH fold, removal of the offsets by
+   hand when both rebuilt natives carry the same tzinfo OBJECT, native subtraction — EVERY pair of well-formed objects and both values of absolute *)
+Theorem model_is_code_interval_new : forall a b abs, obj_ok a -> obj_ok b ->
+  glue_Interval_new_delta a b abs = interval_new_delta (ep_of a) (ep_of b) abs.
+Proof. exact glue_interval_new. Qed.
+Print Assumptions model_is_code_interval_new.
+
+(* the translation itself is this small function over the native primitives (no hypothesis) *)
+Theorem model_is_code_interval_new_shape : forall a b abs, glue_Interval_new_delta a b abs = spec_new a b abs.
+Proof. exact glue_new_is_spec. Qed.
+Print Assumptions model_is_code_interval_new_shape.
+
+(* DateTime.diff(dt, abs) builds Interval(self, dt, absolute=abs) *)
+Theorem model_is_code_diff : forall self dt abs, glue_DateTime_diff_delta self dt abs = glue_Interval_new_delta self dt abs.
+Proof. exact glue_dt_diff. Qed.
+Print Assumptions model_is_code_diff.
+
+(* self - other (a datetime): other is normalised (a native naive value through pendulum.naive with its default fold 1, a native aware value
+   through DateTime.instance, a pendulum DateTime unchanged), then other.diff(self, False) = Interval(other, self) *)
+Theorem model_is_code_sub_datetime : forall self other,
+  glue_DateTime___sub___datetime self other = bind (norm_operand self other) (fun o => glue_Interval_new_delta o self false).
+Proof. exact glue_dt_sub_datetime. Qed.
+Print Assumptions model_is_code_sub_datetime.
+
+(* other - self evaluated by self.__rsub__(other): the same normalisation, then self.diff(other, False) = Interval(self, other) *)
+Theorem model_is_code_rsub_datetime : forall self other,
+  glue_DateTime___rsub__ self other = bind (norm_operand self other) (fun o => glue_Interval_new_delta self o false).
+Proof. exact glue_dt_rsub. Qed.
+Print Assumptions model_is_code_rsub_datetime.
+
+(* Date.diff / Date.__sub__ with a date operand: both sides are rebuilt as pendulum Dates first *)
+Theorem model_is_code_date_diff : forall self dt abs,
+  glue_Date_diff_delta self dt abs = bind (o_pdate_new (o_year dt) (o_month dt) (o_day dt)) (fun d => glue_Interval_new_delta self d abs).
+Proof. exact glue_date_diff. Qed.
+Print Assumptions model_is_code_date_diff.
+
+Theorem model_is_code_date_sub_date : forall self other,
+  glue_Date___sub___date self other =
+  bind (o_pdate_new (o_year other) (o_month other) (o_day other)) (fun d =>
+  bind (o_pdate_new (o_year self) (o_month self) (o_day self)) (fun s => glue_Interval_new_delta d s false)).
+Proof. exact glue_date_sub_date. Qed.
+Print Assumptions model_is_code_date_sub_date.
